@@ -392,6 +392,11 @@ def run(ctx):
             stop = r.args[1] if len(r.args) >= 2 else (r.args[0] if r.args else None)
             ok = isinstance(start, ast.Constant) and start.value in (0, 1) and stop is not None and norm(stop) in ("len(s) + 1", "1 + len(s)", "n + 1") and len(r.args) <= 2
             res.check(ok, "S-CANON", gs.fi.short, norm(r), "all-sizes", "subset sizes do not range over 1..len(s): the hyperedge itself or its smaller faces are missing from the closure", loc(gs.fi, r))
+    with res.guard("G-STALE"):
+        from ..lints import check_stale_in_loop
+
+        for d_ in ("projections.line_graph", "projections.directed_line_graph", "projections.bipartite_projection", "projections.clique_projection"):
+            check_stale_in_loop(ctx, res, d_)
     # ---- similarity functions: a ratio of two integer counts, rounded once
     with res.guard("similarity functions: a ratio of two integer counts, rounded once"):
         res.rules["D-RATIO"] = "intersection = |a & b|; jaccard_similarity = |a & b| / |a | b| as ONE division of integer counts (no float subtraction before the threshold test)"
